@@ -1069,20 +1069,67 @@ func r20g(c *core.Ctx) {
 				}
 			})
 			var missing []string
+			pooledNamed, _ := pt.Elem().(*types.Named)
 			for i := 0; i < st.NumFields(); i++ {
 				f := st.Field(i)
 				if strings.HasPrefix(core.TypeName(f.Type()), "sync.") || f.Name() == "_" {
 					continue
 				}
-				if !whole && !fieldReset[f.Name()] {
+				if !whole && !fieldReset[core.CanonFieldName(pooledNamed, st, i)] {
 					missing = append(missing, f.Name())
 				}
 			}
 			c.Check(len(missing) == 0, key, s.Call.Pos(), fn, "every field of the pooled struct is reset before Put (nothing of the previous request survives in a recycled object)", "not reset: "+strings.Join(missing, ", "))
 			// slices kept for capacity must be cleared (so they do not pin / expose released elements)
 			if strings.HasSuffix(core.TypeName(t), "dnsmsg.Msg") {
-				n := len(core.CallsNamed(fn, "builtin.clear"))
-				c.Check(n >= 2, key+":clear", s.Call.Pos(), fn, "the record slices kept for capacity are clear()ed before truncation", fmt.Sprintf("%d clear calls", n))
+				// every slice field kept for capacity is clear()ed — here, or by a helper that is handed the slice and
+				// clears its parameter on every path
+				var notCleared []string
+				for i := 0; i < st.NumFields(); i++ {
+					f := st.Field(i)
+					if _, isSl := f.Type().Underlying().(*types.Slice); !isSl {
+						continue
+					}
+					isField := func(v ssa.Value) bool {
+						for _, o := range core.Origins(v, core.OriginOpts{}) {
+							if ld, ok := o.(*ssa.UnOp); ok {
+								if fa, ok := ld.X.(*ssa.FieldAddr); ok && fa.Field == i && fa.X == obj {
+									return true
+								}
+							}
+						}
+						return false
+					}
+					cleared := false
+					for _, call := range core.Calls(fn) {
+						if !core.InstrDominates(call, s.Call) && !reachableFrom(fn, call, s.Call) {
+							continue
+						}
+						if core.CallName(call) == "builtin.clear" && isField(call.Common().Args[0]) {
+							cleared = true
+						}
+						if h := core.StaticCallee(call); h != nil && h.Blocks != nil && h.Pkg == fn.Pkg {
+							for k, a := range core.CallArgs(call) {
+								if !isField(a) || k >= len(h.Params) {
+									continue
+								}
+								var hc ssa.Instruction
+								for _, c2 := range core.CallsNamed(h, "builtin.clear") {
+									if c2.Common().Args[0] == ssa.Value(h.Params[k]) {
+										hc = c2
+									}
+								}
+								if hc != nil && core.Reach(h, nil, core.IsReturn, func(in ssa.Instruction) bool { return in == hc }) == nil {
+									cleared = true
+								}
+							}
+						}
+					}
+					if !cleared {
+						notCleared = append(notCleared, f.Name())
+					}
+				}
+				c.Check(len(notCleared) == 0, key+":clear", s.Call.Pos(), fn, "the record slices kept for capacity are clear()ed before truncation", "not cleared: "+strings.Join(notCleared, ", "))
 			}
 		default:
 			if _, isMap := t.Underlying().(*types.Map); isMap {
